@@ -25,7 +25,7 @@ class NodePolicy(Policy):
 
 
 def decode_job(eng, tables, prop, tname, policy, deadline, max_paths=None, initial=None, bfs=False,
-               tag="", kinds=()):
+               tag="", kinds=(), slice_s=None):
     if isinstance(policy, dict):
         policy = Policy(**policy)
     method, path = refdec.DECODERS[tname]
@@ -76,6 +76,7 @@ def decode_job(eng, tables, prop, tname, policy, deadline, max_paths=None, initi
         if rec is not None:
             job.findings.append(rec)
 
-    hcommon.run_paths(eng, job, lambda ctx: harness(ctx), deadline, max_paths, on_leaf, initial=initial, bfs=bfs)
+    hcommon.run_paths(eng, job, lambda ctx: harness(ctx), deadline, max_paths, on_leaf, initial=initial, bfs=bfs,
+                      slice_s=slice_s)
     job.extra["finding_counts"] = seen_keys
     return job
